@@ -103,10 +103,41 @@ class Interp:
                     return False
                 left = right
             return True
+        if isinstance(e, (ast.Tuple, ast.List)) and self.mode == 'truthiness' and not any(
+                isinstance(x, ast.Starred) for x in e.elts):
+            return tuple(self.ev(x) for x in e.elts)
+        if isinstance(e, ast.Dict) and self.mode == 'truthiness' and all(k is not None for k in e.keys):
+            # a local lookup table over the abstract values
+            try:
+                return {self.ev(k): self.ev(v) for k, v in zip(e.keys, e.values)}
+            except TypeError:
+                self.fail(e, '(unhashable key)')
+        if isinstance(e, ast.Subscript) and self.mode == 'truthiness' and (isinstance(
+                self.env.get(norm(e.value)), dict) or isinstance(e.value, ast.Dict)):
+            d = self.ev(e.value)
+            k = self.ev(e.slice)
+            if k not in d:
+                self.fail(e, '(key not in the local table)')
+            return d[k]
         if isinstance(e, ast.Call):
             if isinstance(e.func, ast.Name) and e.func.id == 'bool' and len(e.args) == 1 \
                     and not e.keywords and self.mode == 'truthiness':
                 return bool(self.ev(e.args[0]))
+            if isinstance(e.func, ast.Name) and e.func.id in ('any', 'all') and len(e.args) == 1 \
+                    and not e.keywords and self.mode == 'truthiness' and isinstance(e.args[0], (ast.Tuple, ast.List)):
+                vals = self.ev(e.args[0])
+                return any(vals) if e.func.id == 'any' else all(vals)
+            if isinstance(e.func, ast.Attribute) and e.func.attr == 'get' and 1 <= len(e.args) <= 2 \
+                    and not e.keywords and self.mode == 'truthiness' and (isinstance(
+                        self.env.get(norm(e.func.value)), dict) or isinstance(e.func.value, ast.Dict)):
+                d = self.ev(e.func.value)
+                k = self.ev(e.args[0])
+                try:
+                    if k in d:
+                        return d[k]
+                except TypeError:
+                    self.fail(e, '(unhashable key)')
+                return self.ev(e.args[1]) if len(e.args) == 2 else None
             if isinstance(e.func, ast.Attribute) and e.func.attr == 'get' and \
                     len(e.args) == 2 and isinstance(e.args[0], ast.Constant) and \
                     self.mode == 'truthiness':
